@@ -916,6 +916,20 @@ theorem simplify_prob_partial (g : MG Name) (e e' : Event) (h : simplify g e = .
     probEventOpt M ν e = probEventOpt M ν e' :=
   probEventOpt_congr M ν e e' ((simplify_pointwise g e hrefl hval M hM ν hν).2 e' h)
 
+/-- **SIMPLIFY, then factorise** (lines 1-2 of Algorithm 2, ctfTRu): for an event without a self-intervened variable,
+if SIMPLIFY returns an event outside the three classes, the factorised sum-product of the SIMPLIFIED event is the
+probability of the ORIGINAL event. -/
+theorem simplify_factorize_den_partial (g : MG Name) (hg : g.WF) (e e' : Event) (expr : Expr) (ev : Event)
+    (hs : simplify g e = .ok (some e')) (hf : factorize g e' = .ok (expr, ev))
+    (hrefl : ∀ p ∈ e, selfIntervened p.1 = false)
+    (hval : ∀ p ∈ e, ∀ i, p.2 = some i → i.name = p.1.name)
+    (hread : readableQuery e' = true) (hclass : factorizeClasses g e' = .ok (false, false, false))
+    (M : Fscm.Model) (hM : Fscm.Compatible M g) (hnorm : ∀ pmf ∈ M.noise, pmf.sum = 1)
+    (card : Name → Nat) (hcard : ∀ v pa lat, M.f v pa lat < card v) (ν : Fscm.BaseValues) (hν : ν.Distinct) :
+    factorisedValue M ν card expr ev = probEventOpt M ν e := by
+  rw [factorisation_den_partial g hg e' expr ev hf hread hclass M hM hnorm card hcard ν]
+  exact (simplify_prob_partial g e e' hs hrefl hval M hM ν hν).symm
+
 /-- the two defects that keep the full statement open, as facts about the model: the tautology `Y_y = y` is rewritten to
 `Y = y`, and `Y_y = y ∧ Y = y'` is declared impossible -/
 theorem simplify_reflexive_witness :
